@@ -388,6 +388,68 @@ pub fn t_holds(rng: &mut Rng, profile: &'static str, run_seed: u64, miri: bool, 
     prog
 }
 
+/// C14/C04: a thread waiting in `sync` for a busy object takes the queue over when it is released and runs, ahead of its own closure,
+/// a queued job that itself makes a blocking `sync` on ANOTHER busy object: two blocking waits nested on one thread. No pool thread
+/// exists, so all of it is carried by the callers.
+pub fn t_nested_sync_in_stolen_queue(rng: &mut Rng, profile: &'static str, run_seed: u64, _miri: bool) -> Program {
+    let mut prog = Program::new(run_seed, profile, "blocking_sync_inside_a_job_run_by_a_waiting_sync_caller");
+    prog.pool = 0;
+    prog.pool_mode = PoolMode::Fresh;
+    prog.n_obj = 2;
+    prog.hold_phase = true;
+    prog.held_objs = vec![0, 1];
+    let (hy, hz) = (prog.new_hold(), prog.new_hold());
+    // thread 0 holds object 0, thread 1 holds object 1 (both inside sync closures, on their own threads)
+    let y = prog.add_op(0, Kind::Sync, Disp::None, vec![Step::Touch, Step::Hold(hy), Step::Touch]);
+    let z = prog.add_op(1, Kind::Sync, Disp::None, vec![Step::Touch, Step::Hold(hz), Step::Touch]);
+    prog.threads.push(vec![TAct::Op(y)]);
+    prog.threads.push(vec![TAct::Op(z)]);
+    // thread 2 queues a job on object 0 whose body synchronises with object 1
+    let nb = prog.add_op(1, Kind::Sync, Disp::None, vec![Step::Touch]);
+    let n = prog.add_op(0, Kind::Desync, Disp::None, vec![Step::Touch, Step::Nest(nb), Step::Touch]);
+    prog.ops[nb].parent = Some(n);
+    let mut t2 = vec![TAct::WaitStart(y), TAct::WaitStart(z), TAct::Op(n)];
+    for _ in 0..rng.below(2) { let id = prog.add_op(0, Kind::Desync, Disp::None, vec![Step::Touch]); t2.push(TAct::Op(id)); }
+    prog.threads.push(t2);
+    // thread 3 waits in sync on object 0 behind all that
+    let sx = prog.add_op(0, Kind::Sync, Disp::None, vec![Step::Touch]);
+    prog.threads.push(vec![TAct::WaitRet(n), TAct::Op(sx)]);
+    prog.hold_wait_threads = Some(vec![2]);
+    prog.hold_wait_invoked = vec![sx];
+    // object 0 is released first; once nothing moves any more (the waiter sits in the nested wait), object 1 is released
+    prog.hold_groups.push((vec![hy], Some(nb)));
+    prog.hold_groups.push((vec![hz], None));
+    prog
+}
+
+/// C10: the maximum is lowered (to a value that still exceeds the number of blocked bodies) and the pool despawned while the threads
+/// that have to be retired are inside blocked bodies: the despawn waits for them, and meanwhile operations on other objects must run
+/// on the idle threads that remain
+pub fn t_despawn_while_blocked(rng: &mut Rng, profile: &'static str, run_seed: u64, _miri: bool) -> Program {
+    let mut prog = Program::new(run_seed, profile, "despawn_waits_for_blocked_retiring_threads");
+    prog.pool = 3;
+    prog.pool_mode = PoolMode::Fresh;
+    // objects: 0,1 temporaries (they take the first two pool threads), 2 blocked (third thread), 3 free
+    prog.n_obj = 4;
+    prog.held_objs = vec![0, 1, 2];
+    let (h0, h1, h2) = (prog.new_hold(), prog.new_hold(), prog.new_hold());
+    let t0 = prog.add_op(0, Kind::Desync, Disp::None, vec![Step::Touch, Step::Hold(h0)]);
+    let t1 = prog.add_op(1, Kind::Desync, Disp::None, vec![Step::Touch, Step::Hold(h1)]);
+    let b = prog.add_op(2, Kind::Desync, Disp::None, vec![Step::Touch, Step::Hold(h2), Step::Touch]);
+    let mut probes = vec![];
+    for _ in 0..rng.range(2, 4) {
+        let id = if rng.chance(2, 3) { prog.add_op(3, Kind::Desync, Disp::None, vec![Step::Touch]) } else { prog.add_op(3, Kind::Sync, Disp::None, vec![Step::Touch]) };
+        probes.push(TAct::Op(id));
+    }
+    // each body is scheduled once the previous one has started, so that they sit on the pool threads in list order
+    prog.phases.push(Phase { name: "despawn_while_a_retiring_thread_is_blocked", threads: vec![vec![TAct::Op(t0), TAct::WaitStart(t0), TAct::Op(t1), TAct::WaitStart(t1), TAct::Op(b)]],
+        occupy: vec![h0, h1, h2], release_first: vec![h0, h1], lower_while_busy: Some(2), after_deaths: probes, ..Default::default() });
+    // phase 0: a little ordinary work on the free object
+    let id = prog.add_op(3, Kind::Desync, Disp::None, vec![Step::Touch]);
+    prog.threads.push(vec![TAct::Op(id)]);
+    prog
+}
+
 /// C10: work is pending on several objects while no pool thread is allowed; then the maximum is raised with `set_max_threads(n)`.
 /// k < n of the objects block on holds: everything else must still complete
 pub fn t_raise(rng: &mut Rng, profile: &'static str, run_seed: u64, miri: bool) -> Program {
@@ -787,7 +849,7 @@ pub fn validate(prog: &Program) -> Result<(), String> {
                 TAct::Resume(o, _) | TAct::HandResumer(o) => { open_res.retain(|x| x != o); }
                 TAct::ReleaseMortal | TAct::PanicRelease => { if nb_only { return Err(format!("thread {} drops its owner inside a non-blocking window", t)); } released = true; }
                 TAct::PipeCreate(_) | TAct::Consume(..) => { if nb_only { return Err("pipe act in non-blocking window".into()); } }
-                TAct::DropStream(_) | TAct::Push(_) | TAct::Attempt(..) | TAct::AttemptJoin(_) | TAct::Stash(_) | TAct::WaitStart(_) | TAct::Checkpoint | TAct::FireStashedWakers => {}
+                TAct::DropStream(_) | TAct::Push(_) | TAct::Attempt(..) | TAct::AttemptJoin(_) | TAct::Stash(_) | TAct::WaitStart(_) | TAct::WaitRet(_) | TAct::Checkpoint | TAct::FireStashedWakers => {}
             }
         }
         if !open_fs.is_empty() || !open_res.is_empty() { return Err(format!("thread {} ends with open future_sync/resumer", t)); }
@@ -816,9 +878,9 @@ pub fn generate(profile: &'static str, rng: &mut Rng, run_seed: u64, miri: bool)
     let r = rng.below(100);
     match profile {
         "C03" => if r < 45 { t_dormant(rng, profile, run_seed, miri) } else { mixed(rng, profile, &cfg, run_seed) },
-        "C04" => if r < 35 { t_multisync(rng, profile, run_seed, miri) } else if r < 55 { t_holds(rng, profile, run_seed, miri, true) } else if r < 62 { t_stale_thread_waker(rng, profile, run_seed, miri) } else { mixed(rng, profile, &cfg, run_seed) },
+        "C04" => if r < 35 { t_multisync(rng, profile, run_seed, miri) } else if r < 55 { t_holds(rng, profile, run_seed, miri, true) } else if r < 62 { t_stale_thread_waker(rng, profile, run_seed, miri) } else if r < 68 && !miri { t_nested_sync_in_stolen_queue(rng, profile, run_seed, miri) } else { mixed(rng, profile, &cfg, run_seed) },
         "C09" => if r < 25 { t_try_block(rng, profile, run_seed, miri) } else if r < 45 { t_try_hammer(rng, profile, run_seed, miri) } else if r < 55 { t_try_wake_window(rng, profile, run_seed, miri) } else if r < 63 { t_stale_thread_waker(rng, profile, run_seed, miri) } else { mixed(rng, profile, &cfg, run_seed) },
-        "C10" => if r < 25 && !miri { t_raise(rng, profile, run_seed, miri) } else { t_holds(rng, profile, run_seed, miri, false) },
+        "C10" => if r < 25 && !miri { t_raise(rng, profile, run_seed, miri) } else if r < 35 && !miri { t_despawn_while_blocked(rng, profile, run_seed, miri) } else { t_holds(rng, profile, run_seed, miri, false) },
         "C11" => if r < 12 { t_pipe_chain(rng, profile, run_seed, miri) } else { t_pipe(rng, profile, run_seed, miri, false, false) },
         "C12" => t_pipe(rng, profile, run_seed, miri, true, false),
         "C16" => t_pipe(rng, profile, run_seed, miri, true, true),
@@ -827,7 +889,7 @@ pub fn generate(profile: &'static str, rng: &mut Rng, run_seed: u64, miri: bool)
         "C08" if r >= 85 => t_cancel_fs(rng, profile, run_seed, miri),
         "C08" if r >= 73 => t_retain(rng, profile, run_seed, miri),
         "C01" if r >= 92 => t_cancel_fs(rng, profile, run_seed, miri),
-        "C14" => if r < 10 { t_pipe(rng, profile, run_seed, miri, true, false) } else if r < 20 { t_pipe(rng, profile, run_seed, miri, false, false) } else if r < 30 { t_holds(rng, profile, run_seed, miri, true) } else if r < 42 { t_try_wake_window(rng, profile, run_seed, miri) } else if r < 52 { t_stale_thread_waker(rng, profile, run_seed, miri) } else if r < 58 { t_retain(rng, profile, run_seed, miri) } else if r < 60 { t_drop_held_future(rng, profile, run_seed, miri) } else { mixed(rng, profile, &cfg, run_seed) },
+        "C14" => if r < 10 { t_pipe(rng, profile, run_seed, miri, true, false) } else if r < 20 { t_pipe(rng, profile, run_seed, miri, false, false) } else if r < 30 { t_holds(rng, profile, run_seed, miri, true) } else if r < 42 { t_try_wake_window(rng, profile, run_seed, miri) } else if r < 52 { t_stale_thread_waker(rng, profile, run_seed, miri) } else if r < 58 { t_retain(rng, profile, run_seed, miri) } else if r < 60 { t_drop_held_future(rng, profile, run_seed, miri) } else if r < 66 && !miri { t_nested_sync_in_stolen_queue(rng, profile, run_seed, miri) } else { mixed(rng, profile, &cfg, run_seed) },
         "C01" => if r < 8 { t_pipe(rng, profile, run_seed, miri, false, false) } else if r < 16 { t_pipe(rng, profile, run_seed, miri, true, false) } else if r < 24 { t_try_wake_window(rng, profile, run_seed, miri) } else if r < 30 { t_stale_thread_waker(rng, profile, run_seed, miri) } else if r < 36 { t_retain(rng, profile, run_seed, miri) } else { mixed(rng, profile, &cfg, run_seed) },
         "C06" if r < 8 => t_stale_thread_waker(rng, profile, run_seed, miri),
         _ => mixed(rng, profile, &cfg, run_seed),
